@@ -48,7 +48,8 @@ def process_signature(app, what, name, obj, options,
                       sig, return_annotation):
     try:
         parent, obj = fetch_dotted_name(name)
-    except AttributeError:
+    except (AttributeError, ImportError, ValueError):
+        # ValueError: a top-level module name leaves nothing to import from
         return sig, return_annotation
     if isinstance(obj, instancemethod): # python 2 unbound methods
         obj = obj.__func__
